@@ -878,6 +878,68 @@ func (c *Ctx) ScatterIndexDiscipline(prop string) {
 	if sc == nil {
 		return
 	}
+	var forwarded []*ssa.Function
+	checkWorker := func(W *ssa.Function, l *Loop) {
+		bad := 0
+		for _, f := range WithClosures(W) {
+			for _, b := range f.Blocks {
+				for _, ins := range b.Instrs {
+					switch x := ins.(type) {
+					case *ssa.IndexAddr:
+						// captured slice: root reached through a free-variable cell
+						u, ok := x.X.(*ssa.UnOp)
+						if !ok {
+							continue
+						}
+						if _, isFV := u.X.(*ssa.FreeVar); !isFV {
+							continue
+						}
+						if x.Index != l.Idx {
+							// reads of immutable inputs with len-guards (len(pubKeys) > i) still use i; anything else is a violation
+							bad++
+							c.R.Fail(rule, Fn(W)+":"+an.Term(u.X), c.Pos(x), "a captured slice is indexed with "+an.Term(x.Index)+" instead of the worker's own loop variable: workers would read or write each other's positions", "captured slices only at [i]", nil)
+						}
+					case *ssa.Store:
+						if fv, ok := x.Addr.(*ssa.FreeVar); ok {
+							bad++
+							c.R.Fail(rule, Fn(W)+":"+fv.Name(), c.Pos(x), "a captured variable is assigned from concurrent workers", "workers write only their own slice positions", nil)
+						}
+					case *ssa.MapUpdate:
+						// a captured map written by several workers: the runtime aborts the whole process on overlapping map
+						// writes (fatal error, not recoverable) - allowed only under the mutex Scatter hands to the worker
+						m := x.Map
+						if u, ok := m.(*ssa.UnOp); ok {
+							if _, isFV := u.X.(*ssa.FreeVar); isFV {
+								locked := false
+								if f == W && len(W.Params) >= 3 {
+									mu := ssa.Value(W.Params[2])
+									target := ssa.Instruction(x)
+									if y, _ := an.Cut(an.CutQuery{From: an.Entry(W), Target: func(i ssa.Instruction) bool { return i == target },
+										AcceptInstr: func(i ssa.Instruction) bool {
+											ci, ok := i.(ssa.CallInstruction)
+											if !ok || ci.Common().StaticCallee() == nil || ci.Common().StaticCallee().Name() != "Lock" || len(ci.Common().Args) == 0 {
+												return false
+											}
+											return ci.Common().Args[0] == mu
+										}}); y == nil {
+										locked = true
+									}
+								}
+								if !locked {
+									bad++
+									c.R.Fail(rule, Fn(W)+":map", c.Pos(x), "a captured map is written by concurrent workers without the worker mutex: overlapping map writes are a fatal runtime error that terminates the process", "per-position slices, or the map only under the mutex passed to the worker", nil)
+								}
+							}
+						}
+					}
+				}
+			}
+		}
+		// the loop must not be left early other than by return (break would skip positions): breaks are tolerated only when every skipped position keeps a non-approving default
+		if bad == 0 {
+			c.R.OK(rule, Fn(W), c.P.FuncPos(W), "captured slices are accessed only at the worker loop's own index; no captured scalar is written")
+		}
+	}
 	n := 0
 	for _, fn := range c.P.ModuleFuncs() {
 		if prog.IsTestish(prog.PkgPathOf(fn)) {
@@ -893,72 +955,101 @@ func (c *Ctx) ScatterIndexDiscipline(prop string) {
 			n++
 			l, ok := scatterLoopIdx(W)
 			if !ok {
+				// a forwarding wrapper: the closure only calls the enclosing function's work parameter with its own
+				// (offset, entries); the closures handed to the wrapper are then the workers
+				if k, isFwd := scatterForwarder(fn, mc, W); isFwd {
+					nfw := 0
+					for _, cs := range c.staticCallers()[fn] {
+						if prog.IsTestish(prog.PkgPathOf(cs.Parent())) || k >= len(cs.Common().Args) {
+							continue
+						}
+						mc2, isClosure := cs.Common().Args[k].(*ssa.MakeClosure)
+						if !isClosure {
+							c.R.Unknown(rule, Fn(cs.Parent()), c.Pos(cs), "the work function handed to the scatter wrapper is not a closure literal")
+							continue
+						}
+						nfw++
+						forwarded = append(forwarded, mc2.Fn.(*ssa.Function))
+					}
+					if nfw > 0 {
+						continue
+					}
+				}
 				c.R.Fail(rule, Fn(W), c.P.FuncPos(W), "the worker is not of the form `for i := offset; i < offset+entries; i++`: it may touch positions that belong to other workers", "worker loop over [offset, offset+entries)", nil)
 				continue
 			}
-			bad := 0
-			for _, f := range WithClosures(W) {
-				for _, b := range f.Blocks {
-					for _, ins := range b.Instrs {
-						switch x := ins.(type) {
-						case *ssa.IndexAddr:
-							// captured slice: root reached through a free-variable cell
-							u, ok := x.X.(*ssa.UnOp)
-							if !ok {
-								continue
-							}
-							if _, isFV := u.X.(*ssa.FreeVar); !isFV {
-								continue
-							}
-							if x.Index != l.Idx {
-								// reads of immutable inputs with len-guards (len(pubKeys) > i) still use i; anything else is a violation
-								bad++
-								c.R.Fail(rule, Fn(W)+":"+an.Term(u.X), c.Pos(x), "a captured slice is indexed with "+an.Term(x.Index)+" instead of the worker's own loop variable: workers would read or write each other's positions", "captured slices only at [i]", nil)
-							}
-						case *ssa.Store:
-							if fv, ok := x.Addr.(*ssa.FreeVar); ok {
-								bad++
-								c.R.Fail(rule, Fn(W)+":"+fv.Name(), c.Pos(x), "a captured variable is assigned from concurrent workers", "workers write only their own slice positions", nil)
-							}
-						case *ssa.MapUpdate:
-							// a captured map written by several workers: the runtime aborts the whole process on overlapping map
-							// writes (fatal error, not recoverable) - allowed only under the mutex Scatter hands to the worker
-							m := x.Map
-							if u, ok := m.(*ssa.UnOp); ok {
-								if _, isFV := u.X.(*ssa.FreeVar); isFV {
-									locked := false
-									if f == W && len(W.Params) >= 3 {
-										mu := ssa.Value(W.Params[2])
-										target := ssa.Instruction(x)
-										if y, _ := an.Cut(an.CutQuery{From: an.Entry(W), Target: func(i ssa.Instruction) bool { return i == target },
-											AcceptInstr: func(i ssa.Instruction) bool {
-												ci, ok := i.(ssa.CallInstruction)
-												if !ok || ci.Common().StaticCallee() == nil || ci.Common().StaticCallee().Name() != "Lock" || len(ci.Common().Args) == 0 {
-													return false
-												}
-												return ci.Common().Args[0] == mu
-											}}); y == nil {
-											locked = true
-										}
-									}
-									if !locked {
-										bad++
-										c.R.Fail(rule, Fn(W)+":map", c.Pos(x), "a captured map is written by concurrent workers without the worker mutex: overlapping map writes are a fatal runtime error that terminates the process", "per-position slices, or the map only under the mutex passed to the worker", nil)
-									}
-								}
-							}
-						}
-					}
-				}
-			}
-			// the loop must not be left early other than by return (break would skip positions): breaks are tolerated only when every skipped position keeps a non-approving default
-			if bad == 0 {
-				c.R.OK(rule, Fn(W), c.P.FuncPos(W), "captured slices are accessed only at the worker loop's own index; no captured scalar is written")
-			}
+			checkWorker(W, l)
 		}
+	}
+	for _, W2 := range forwarded {
+		n++
+		l2, ok := scatterLoopIdx(W2)
+		if !ok {
+			c.R.Fail(rule, Fn(W2), c.P.FuncPos(W2), "the worker handed to the scatter wrapper is not of the form `for i := offset; i < offset+entries; i++`: it may touch positions that belong to other workers", "worker loop over [offset, offset+entries)", nil)
+			continue
+		}
+		checkWorker(W2, l2)
 	}
 	// two batch endpoints and the ruler each hand at least one closure to Scatter
 	c.R.Floor(rule, "closures passed to Scatter", n, 3)
+}
+
+// scatterForwarder: W, the closure fn passes to Scatter, does nothing with positions itself: it calls fn's function-typed
+// parameter with its own (offset, entries) and touches no captured slice. It returns the position of that parameter.
+func scatterForwarder(fn *ssa.Function, mc *ssa.MakeClosure, W *ssa.Function) (int, bool) {
+	if len(W.Params) < 2 {
+		return -1, false
+	}
+	k := -1
+	ncall := 0
+	for _, b := range W.Blocks {
+		for _, ins := range b.Instrs {
+			switch x := ins.(type) {
+			case *ssa.IndexAddr:
+				if u, ok := x.X.(*ssa.UnOp); ok {
+					if _, isFV := u.X.(*ssa.FreeVar); isFV {
+						return -1, false
+					}
+				}
+			case ssa.CallInstruction:
+				cc := x.Common()
+				if cc.IsInvoke() || cc.StaticCallee() != nil {
+					continue
+				}
+				if _, isB := cc.Value.(*ssa.Builtin); isB {
+					continue
+				}
+				// dynamic call of a captured function value
+				v := cc.Value
+				if u, ok := v.(*ssa.UnOp); ok {
+					if inner, ok := an.ResolveCell(u.X); ok {
+						v = inner
+					}
+				}
+				if fv, ok := v.(*ssa.FreeVar); ok {
+					for bi, f := range W.FreeVars {
+						if f == fv && bi < len(mc.Bindings) {
+							v = mc.Bindings[bi]
+						}
+					}
+				}
+				p, ok := v.(*ssa.Parameter)
+				if !ok || p.Parent() != fn {
+					return -1, false
+				}
+				if len(cc.Args) < 2 || cc.Args[0] != ssa.Value(W.Params[0]) || cc.Args[1] != ssa.Value(W.Params[1]) {
+					return -1, false
+				}
+				ncall++
+				for i, q := range fn.Params {
+					if q == p {
+						k = i
+					}
+				}
+			}
+		}
+	}
+	return k, ncall == 1 && k >= 0
 }
 
 // RulerKeyAgreement (C04.O5, dispatch side): the public key in the metadata handed to the rules is the PubKey of the very
